@@ -13,6 +13,8 @@ import (
 // zzObj: a user object behind the generic object front (NewBasicObject): counts invocations of its
 // own method (any action not handled by the generic object) and of its termination hook.
 type zzObj struct {
+	gate       chan struct{} // when set, the first message waits here (a slow method)
+	gated      int32
 	calls      int32
 	terminated int32
 	id         uint32
@@ -21,6 +23,9 @@ type zzObj struct {
 }
 
 func (o *zzObj) Receive(m *net.Message, from Channel) error {
+	if o.gate != nil && atomic.AddInt32(&o.gated, 1) == 1 {
+		<-o.gate
+	}
 	atomic.AddInt32(&o.calls, 1)
 	if m.Header.Type == net.Call {
 		return from.SendReply(m, []byte{0x55})
@@ -224,3 +229,62 @@ func C16Race() {
 	sym.Assert(atomic.LoadInt32(&o.calls) == calls, "removed-object-still-invoked")
 	sym.Reach("race-done")
 }
+
+// C16DoubleRemove: two removals of the same object race (an implementor's Remove against a remote
+// terminate, or two Removes): the termination hook still runs exactly once and only one succeeds.
+func C16DoubleRemove() {
+	srv, _, _, _ := zzAuthedServer()
+	root := newZZObj()
+	service, err := srv.NewService("objects", root.front)
+	sym.Assert(err == nil, "service-registered")
+	if err != nil {
+		return
+	}
+	o := newZZObj()
+	id, err := service.Add(o.front)
+	sym.Assert(err == nil, "add-ok")
+	errs := make([]error, 2)
+	done := make(chan bool, 2)
+	for i := 0; i < 2; i++ {
+		go func(i int) { errs[i] = service.Remove(id); done <- true }(i)
+	}
+	<-done
+	<-done
+	sym.Assert(atomic.LoadInt32(&o.terminated) == 1, "termination-hook-exactly-once")
+	sym.Assert((errs[0] == nil) != (errs[1] == nil), "exactly-one-removal-succeeds")
+	sym.Reach("double-remove-done")
+}
+
+// C16ClientService: the client-side Service (objects lent to a remote service through
+// NewServiceReference): add A, remove A, add B, remove A again: the second removal fails and B is
+// not affected.
+func C16ClientService() {
+	s := newZZStream()
+	e := net.NewEndPoint(s)
+	serviceID := sym.U32("service-id")
+	svc := NewServiceReference(nil, e, serviceID)
+	a, b := &zzProbe{}, &zzProbe{}
+	ta, tb := &zzTerm{}, &zzTerm{}
+	idA, err := svc.Add(&zzActorT{zzProbe: a, t: ta})
+	sym.Assert(err == nil, "add-a")
+	sym.Assert(svc.Remove(idA) == nil, "remove-a")
+	idB, err := svc.Add(&zzActorT{zzProbe: b, t: tb})
+	sym.Assert(err == nil, "add-b")
+	sym.Assert(idA != idB, "client-object-id-reused")
+	sym.Assert(svc.Remove(idA) != nil, "second-removal-of-removed-object-accepted")
+	sym.Quiesce()
+	sym.Assert(atomic.LoadInt32(&tb.n) == 0, "removing-one-object-terminated-another")
+	// B still receives its messages
+	s.inject(zzFrame(net.Call, serviceID, idB, 1000, 9, nil))
+	sym.Quiesce()
+	sym.Assert(b.count() == 1, "other-object-no-longer-reachable")
+	sym.Reach("client-service-done")
+}
+
+type zzTerm struct{ n int32 }
+type zzActorT struct {
+	*zzProbe
+	t *zzTerm
+}
+
+func (z *zzActorT) OnTerminate() { atomic.AddInt32(&z.t.n, 1) }
